@@ -659,13 +659,9 @@ func SegDist(s Seg, q Pt, n int) (float64, float64) {
 	for i := 0; i <= n; i++ {
 		ds[i] = q.Dist(s.Eval(float64(i) / float64(n)))
 	}
-	// refine around every local minimum of the sampled distance
-	for i := 0; i <= n; i++ {
-		if (i > 0 && ds[i-1] < ds[i]) || (i < n && ds[i+1] < ds[i]) {
-			continue
-		}
-		lo := math.Max(0, float64(i-1)/float64(n))
-		hi := math.Min(1, float64(i+1)/float64(n))
+	// refine around every local minimum of the sampled distance: first resample the bracket finely (two
+	// branches of a sharp turn may both lie inside one coarse bracket), then golden-section search
+	golden := func(lo, hi float64) (float64, float64) {
 		const g = 0.6180339887498949
 		for k := 0; k < 50; k++ {
 			m1 := hi - g*(hi-lo)
@@ -677,8 +673,28 @@ func SegDist(s Seg, q Pt, n int) (float64, float64) {
 			}
 		}
 		t := (lo + hi) / 2
-		if d := q.Dist(s.Eval(t)); d < best {
-			best, bt = d, t
+		return q.Dist(s.Eval(t)), t
+	}
+	for i := 0; i <= n; i++ {
+		if (i > 0 && ds[i-1] < ds[i]) || (i < n && ds[i+1] < ds[i]) {
+			continue
+		}
+		lo := math.Max(0, float64(i-2)/float64(n))
+		hi := math.Min(1, float64(i+2)/float64(n))
+		const sub = 64
+		fs := make([]float64, sub+1)
+		for k := 0; k <= sub; k++ {
+			fs[k] = q.Dist(s.Eval(lo + (hi-lo)*float64(k)/sub))
+		}
+		for k := 0; k <= sub; k++ {
+			if (k > 0 && fs[k-1] < fs[k]) || (k < sub && fs[k+1] < fs[k]) {
+				continue
+			}
+			a := lo + (hi-lo)*math.Max(0, float64(k-1))/sub
+			b := lo + (hi-lo)*math.Min(sub, float64(k+1))/sub
+			if d, t := golden(a, b); d < best {
+				best, bt = d, t
+			}
 		}
 		if ds[i] < best {
 			best, bt = ds[i], float64(i)/float64(n)
